@@ -1,11 +1,12 @@
 package main
 
 import (
-	"github.com/mdlayher/packet"
 	"errors"
 	"fmt"
+	"github.com/mdlayher/packet"
 	"math/rand"
 	"net"
+	"strings"
 	"time"
 
 	"github.com/insomniacslk/dhcp/dhcpv4/client4"
@@ -64,8 +65,8 @@ func (s *scriptConn) WriteTo(b []byte, a net.Addr) (int, error) {
 	s.sent = append(s.sent, append([]byte(nil), b...))
 	return len(b), nil
 }
-func (s *scriptConn) Close() error                       { return nil }
-func (s *scriptConn) LocalAddr() net.Addr                { l, _ := s.addrs(); return l }
+func (s *scriptConn) Close() error                     { return nil }
+func (s *scriptConn) LocalAddr() net.Addr              { l, _ := s.addrs(); return l }
 func (s *scriptConn) SetDeadline(time.Time) error      { return nil }
 func (s *scriptConn) SetReadDeadline(time.Time) error  { return nil }
 func (s *scriptConn) SetWriteDeadline(time.Time) error { return nil }
@@ -82,6 +83,11 @@ func readTimed(c net.PacketConn, b []byte) (n int, addr net.Addr, err error, hun
 	}
 	ch := make(chan res, 1)
 	go func() {
+		defer func() {
+			if r := recover(); r != nil { // a panic in the library is reported like an error that no frame may cause
+				ch <- res{0, nil, fmt.Errorf("panic: %v", r)}
+			}
+		}()
 		n, a, e := c.ReadFrom(b)
 		ch <- res{n, a, e}
 	}()
@@ -100,16 +106,16 @@ func endpoint(ip net.IP, port int) map[string]any {
 
 // harness-side frame builder (independent of the library) for the read direction
 type frameSpec struct {
-	version, ihl     int // ihl in 32-bit words
-	tlDelta          int // total length = true length + tlDelta
-	proto            int
-	src, dst         net.IP
-	sport, dport     int
-	payload          []byte
-	pad              int // link-layer padding bytes after the IP packet
-	cut              int // keep only the first cut bytes (-1: all)
-	udpLenDelta      int
-	cksum            bool // the UDP checksum is filled in (RFC 768, computed over pseudo-header, UDP header and payload); else 0: none
+	version, ihl int // ihl in 32-bit words
+	tlDelta      int // total length = true length + tlDelta
+	proto        int
+	src, dst     net.IP
+	sport, dport int
+	payload      []byte
+	pad          int // link-layer padding bytes after the IP packet
+	cut          int // keep only the first cut bytes (-1: all)
+	udpLenDelta  int
+	cksum        bool // the UDP checksum is filled in (RFC 768, computed over pseudo-header, UDP header and payload); else 0: none
 }
 
 func sum16(b []byte) uint16 {
@@ -421,9 +427,12 @@ func genC18(o *Out, rng *rand.Rand, tier string) {
 				for {
 					b := make([]byte, 1500)
 					n, addr, err, hung := readTimed(c, b)
-						if hung {
-							rec["hang"] = true
-						}
+					if hung {
+						rec["hang"] = true
+					}
+					if err != nil && strings.HasPrefix(err.Error(), "panic: ") {
+						rec["panic"] = err.Error()
+					}
 					if err != nil {
 						rec["end"] = errors.Is(err, errScriptEnd)
 						return
@@ -462,6 +471,9 @@ func genC18(o *Out, rng *rand.Rand, tier string) {
 						n, addr, err, hung := readTimed(c, b)
 						if hung {
 							rec["hang"] = true
+						}
+						if err != nil && strings.HasPrefix(err.Error(), "panic: ") {
+							rec["panic"] = err.Error()
 						}
 						if err != nil {
 							rec["end"] = errors.Is(err, errScriptEnd)
@@ -515,9 +527,12 @@ func genC18(o *Out, rng *rand.Rand, tier string) {
 			for {
 				b := make([]byte, buflen)
 				n, addr, err, hung := readTimed(c, b)
-						if hung {
-							rec["hang"] = true
-						}
+				if hung {
+					rec["hang"] = true
+				}
+				if err != nil && strings.HasPrefix(err.Error(), "panic: ") {
+					rec["panic"] = err.Error()
+				}
 				if err != nil {
 					rec["end"] = errors.Is(err, errScriptEnd)
 					return
